@@ -607,3 +607,416 @@ Example value_of_is_subst_example :
   value_of 10 [("a", App HAdd [Sym "b"; Num 1]); ("b", App HMul [Sym "c"; Num 2]); ("c", Num (1#2))]%string [] (Sym "a"%string)
   = Ok (App HAdd [App HMul [Num (1#2); Num 2]; Num 1]).
 Proof. reflexivity. Qed.
+
+(* ---- unrelated symbols are left alone ---------------------------------------------------------------------- *)
+Lemma subst_unrelated r e : (forall s, In s (free_syms e) -> lookup r s = None) -> subst r e = e.
+Proof. intros H. apply normal_settled. intros s Hs. left. apply H. exact Hs. Qed.
+
+Theorem value_of_unrelated : forall r e, (forall s, In s (free_syms e) -> lookup r s = None) ->
+  forall fuel, size e <= fuel -> value_of fuel r [] e = Ok e.
+Proof.
+  intros r. induction e as [q|s|h l IH] using expr_ind'; intros H fuel Hf.
+  - destruct fuel; [simpl in Hf; lia|reflexivity].
+  - destruct fuel; [simpl in Hf; lia|]. rewrite value_of_S. rewrite (H s (or_introl eq_refl)). reflexivity.
+  - destruct fuel as [|f]; [simpl in Hf; lia|]. rewrite value_of_S.
+    destruct (fast h l).
+    + assert (G : seqM (value_of f r []) l = Ok l).
+      { apply seqM_Forall2. simpl in H, Hf. apply le_S_n in Hf. clear h.
+        induction l as [|x l IHl]; [constructor|]. inversion IH as [|? ? Hx Hrest]; subst. simpl in Hf. constructor.
+        - apply Hx; [|lia]. intros s Hs. apply H. simpl. apply in_or_app. left. exact Hs.
+        - apply IHl; [exact Hrest| |lia]. intros s Hs. apply H. simpl. apply in_or_app. right. exact Hs. }
+      rewrite G. reflexivity.
+    + simpl kmem. cbv zeta. rewrite (subst_unrelated r (App h l) H), expr_eqb_refl. reflexivity.
+Qed.
+
+Theorem resolves_unrelated : forall r e, (forall s, In s (free_syms e) -> lookup r s = None) -> resolves_to r e e.
+Proof. intros r e H. eapply value_of_sound. apply (value_of_unrelated r e H (size e)). lia. Qed.
+
+(* recursive=False is one simultaneous substitution, whatever path the code takes *)
+Theorem value_of_once_subst : forall r e, value_of_once r e = subst r e.
+Proof.
+  intros r. induction e as [q|s|h l IH] using expr_ind'; simpl; try reflexivity.
+  destruct (fast h l); [|reflexivity]. f_equal. apply map_ext_in. intros x Hx. rewrite Forall_forall in IH. auto.
+Qed.
+
+(* what is left after resolution only mentions settled symbols, and only symbols that were there or that the
+   dictionary values mention *)
+Definition range_syms (r : resolver) : list string := flat_map (fun p => free_syms (snd p)) r.
+
+Lemma lookup_In r s v : lookup r s = Some v -> In (s, v) r.
+Proof.
+  induction r as [|[k x] r IH]; simpl; [discriminate|].
+  destruct (String.eqb_spec k s) as [->|_]; [intros H; injection H as ->; left; reflexivity|intros H; right; auto].
+Qed.
+
+Lemma lookup_range r s v u : lookup r s = Some v -> In u (free_syms v) -> In u (range_syms r).
+Proof. intros H Hu. apply lookup_In in H. unfold range_syms. apply in_flat_map. exists (s, v). split; assumption. Qed.
+
+Lemma expandw_syms r : forall n e e' w, expandw n r e = Some (e', w) ->
+  forall u, In u (free_syms e') -> In u (free_syms e) \/ In u (range_syms r).
+Proof.
+  induction n as [|m IH]; intros e e' w H u Hu; [discriminate|].
+  rewrite expandw_S in H. destruct e as [q|s|h l].
+  - injection H as <- _. left. exact Hu.
+  - destruct (lookup r s) as [v|] eqn:El; [|injection H as <- _; left; exact Hu].
+    destruct (expr_eqb v (Sym s)); [injection H as <- _; left; exact Hu|].
+    destruct (expandw m r v) as [[a b]|] eqn:E; [|discriminate]. injection H as <- _.
+    destruct (IH _ _ _ E u Hu) as [H1|H1]; [right; eapply lookup_range; eauto|right; exact H1].
+  - destruct (mapM (expandw m r) l) as [ps|] eqn:E; [|discriminate]. injection H as <- _.
+    simpl in Hu. apply in_flat_map in Hu. destruct Hu as [y [Hy Hu]].
+    apply in_map_iff in Hy. destruct Hy as [[a b] [<- Hp]]. simpl in Hu.
+    apply mapM_Forall2 in E.
+    assert (G : exists x, In x l /\ expandw m r x = Some (a, b)).
+    { clear -E Hp. induction E as [|x p l ps Hx _ IHl]; [destruct Hp|]. destruct Hp as [->|Hp].
+      - exists x. split; [left; reflexivity|exact Hx].
+      - destruct (IHl Hp) as [x' [Hx' Hx'']]. exists x'. split; [right; exact Hx'|exact Hx'']. }
+    destruct G as [x [Hx Hxe]]. destruct (IH _ _ _ Hxe u Hu) as [H1|H1]; [left|right; exact H1].
+    simpl. apply in_flat_map. exists x. split; assumption.
+Qed.
+
+Theorem resolves_to_syms r e e' : resolves_to r e e' ->
+  forall u, In u (free_syms e') -> settled r u /\ (In u (free_syms e) \/ In u (range_syms r)).
+Proof.
+  intros Hres u Hu. split.
+  - apply (proj1 (normal_settled r e') (resolves_to_normal r e e' Hres)). exact Hu.
+  - destruct Hres as [n H]. apply expand_some in H. destruct H as [w H]. eapply expandw_syms; eauto.
+Qed.
+
+Lemma Forall_Forall2_map {A B} (P : A -> B -> Prop) (f : A -> B) l :
+  Forall (fun x => P x (f x)) l -> Forall2 P l (map f l).
+Proof. induction 1; simpl; constructor; auto. Qed.
+
+(* ---- D2: composition ------------------------------------------------------------------------------------------- *)
+(* a dictionary all of whose values are already fixed points resolves by a single substitution *)
+Definition single_step (r : resolver) : Prop := forall s v, lookup r s = Some v -> subst r v = v.
+
+Lemma single_step_resolves r : single_step r -> forall e, resolves_to r e (subst r e).
+Proof.
+  intros Hs. induction e as [q|s|h l IH] using expr_ind'.
+  - exists 1. reflexivity.
+  - simpl. destruct (lookup r s) as [v|] eqn:El.
+    + destruct (expr_eqb v (Sym s)) eqn:Ev.
+      * apply expr_eqb_eq in Ev. subst v. exists 1. unfold expand. rewrite expandw_S, El, expr_eqb_refl. reflexivity.
+      * destruct (normal_expand r v (Hs s v El)) as [n Hn]. exists (S n). unfold expand in *. rewrite expandw_S, El, Ev.
+        destruct (expandw n r v) as [[a b]|]; [|discriminate]. exact Hn.
+    + exists 1. unfold expand. rewrite expandw_S, El. reflexivity.
+  - simpl. apply expand_app. apply Forall_Forall2_map. exact IH.
+Qed.
+
+Lemma lookup_None_dom r s : lookup r s = None <-> ~ In s (dom r).
+Proof.
+  induction r as [|[k v] r IH]; simpl; [tauto|].
+  destruct (String.eqb_spec k s) as [->|Hne].
+  - split; [discriminate|intros C; contradiction C; left; reflexivity].
+  - rewrite IH. split; [intros H [E|E]; [contradiction|contradiction]|tauto].
+Qed.
+
+Lemma lookup_Some_dom r s : In s (dom r) -> exists v, lookup r s = Some v.
+Proof. intros H. destruct (lookup r s) as [v|] eqn:E; [eauto|]. apply lookup_None_dom in E. contradiction. Qed.
+
+Lemma subst_ext r r' : (forall s, lookup r s = lookup r' s) -> forall e, subst r e = subst r' e.
+Proof.
+  intros H. induction e as [q|s|h l IH] using expr_ind'; simpl; [reflexivity|rewrite H; reflexivity|].
+  f_equal. apply map_ext_in. rewrite Forall_forall in IH. auto.
+Qed.
+
+Lemma resolves_num r q x : resolves_to r (Num q) x -> x = Num q.
+Proof. intros H. apply (resolves_to_functional r (Num q)); [exact H|exists 1; reflexivity]. Qed.
+
+Lemma settled_resolves r s : settled r s -> resolves_to r (Sym s) (Sym s).
+Proof.
+  intros [H|H]; exists 1; unfold expand; rewrite expandw_S, H; [reflexivity|]. rewrite expr_eqb_refl. reflexivity.
+Qed.
+
+Lemma resolves_app_inv r h l e' : resolves_to r (App h l) e' ->
+  exists l', e' = App h l' /\ Forall2 (resolves_to r) l l'.
+Proof.
+  intros [n H]. apply expand_app_inv in H. destruct H as [m [ps [-> [Hm ->]]]].
+  exists (map fst ps). split; [reflexivity|]. apply mapM_Forall2 in Hm.
+  induction Hm as [|x p l ps Hx _ IHl]; simpl; constructor; [|exact IHl].
+  exists m. apply expand_some. exists (snd p). destruct p; exact Hx.
+Qed.
+
+Lemma seqM_ext {A B} (f g : A -> outcome B) l : (forall x, f x = g x) -> seqM f l = seqM g l.
+Proof. intros H. induction l as [|x r IH]; simpl; [reflexivity|]. rewrite H, IH. reflexivity. Qed.
+
+(* dictionaries built key by key *)
+Lemma seqM_keyed {B} (F : string -> outcome B) keys new :
+  seqM (fun k => bind (F k) (fun v => Ok (k, v))) keys = Ok new ->
+  Forall2 (fun k p => fst p = k /\ F k = Ok (snd p)) keys new.
+Proof.
+  intros H. apply seqM_Forall2 in H. eapply Forall2_impl; [|exact H].
+  intros k [k' v] Hk. simpl. unfold bind in Hk. destruct (F k) as [a| |]; try discriminate.
+  injection Hk as <- <-. split; reflexivity.
+Qed.
+
+Lemma lookup_keyed (Q : string -> expr -> Prop) keys (new : resolver) :
+  Forall2 (fun k p => fst p = k /\ Q k (snd p)) keys new ->
+  forall k, (In k keys -> exists v, lookup new k = Some v /\ Q k v) /\ (~ In k keys -> lookup new k = None).
+Proof.
+  induction 1 as [|k0 [k1 v1] keys new [Hk Hq] _ IH]; intros k; simpl in *.
+  - split; [tauto|reflexivity].
+  - subst k1. destruct (String.eqb_spec k0 k) as [->|Hne].
+    + split; [intros _; exists v1; split; [reflexivity|exact Hq]|intros C; contradiction C; left; reflexivity].
+    + destruct (IH k) as [A B]. split; [intros [E|E]; [contradiction|auto]|intros C; apply B; tauto].
+Qed.
+
+Lemma compose_keys_In r1 r2 k : In k (compose_keys r1 r2) <-> In k (dom r1) \/ In k (dom r2).
+Proof.
+  unfold compose_keys. rewrite in_app_iff, filter_In. split.
+  - intros [H|[H _]]; auto.
+  - intros [H|H]; [|left; exact H]. destruct (mem k (dom r2)) eqn:E; [left; apply mem_In; exact E|right; split; [exact H|reflexivity]].
+Qed.
+
+(* "r1 then r2" on one symbol *)
+Definition seq_val (r1 r2 : resolver) (k : string) (v2 : expr) : Prop :=
+  exists v1, resolves_to r1 (Sym k) v1 /\ resolves_to r2 v1 v2.
+
+Lemma compose_step_spec fuel r1 r2 new : compose_step fuel r1 r2 = Ok new ->
+  forall k, (In k (dom r1) \/ In k (dom r2) -> exists v, lookup new k = Some v /\ seq_val r1 r2 k v) /\
+            (~ (In k (dom r1) \/ In k (dom r2)) -> lookup new k = None).
+Proof.
+  intros H k. unfold compose_step in H.
+  set (F := fun k => bind (if mem k (dom r1) then value_of fuel r1 [] (Sym k) else Ok (Sym k))
+                          (fun v1 => value_of fuel r2 [] v1)).
+  assert (H' : seqM (fun k => bind (F k) (fun v => Ok (k, v))) (compose_keys r1 r2) = Ok new).
+  { rewrite <- H. apply seqM_ext. intros k0. unfold F, bind.
+    destruct (mem k0 (dom r1)); [destruct (value_of fuel r1 [] (Sym k0))|]; reflexivity. }
+  assert (Hseq : forall k v, F k = Ok v -> seq_val r1 r2 k v).
+  { intros k0 v Hv. unfold F, bind in Hv.
+    destruct (mem k0 (dom r1)) eqn:Em.
+    - destruct (value_of fuel r1 [] (Sym k0)) as [v1| |] eqn:E1; try discriminate.
+      exists v1. split; eapply value_of_sound; eauto.
+    - exists (Sym k0). split; [|eapply value_of_sound; eauto].
+      apply settled_resolves. left. apply lookup_None_dom. intros C. apply mem_In in C. congruence. }
+  pose proof (lookup_keyed (fun k v => F k = Ok v) _ _ (seqM_keyed F _ _ H') k) as [A B].
+  split.
+  - intros Hk. destruct (A (proj2 (compose_keys_In r1 r2 k) Hk)) as [v [Hv Hq]]. exists v. split; [exact Hv|apply Hseq; exact Hq].
+  - intros Hk. apply B. intros C. apply Hk. apply compose_keys_In. exact C.
+Qed.
+
+(* the hypothesis under which composition is sequential resolution: r2 does not bring back a symbol that r1 resolves *)
+Definition no_reintro (r1 r2 : resolver) : Prop := forall u, In u (range_syms r2) -> settled r1 u.
+
+Section Compose.
+  Variables (r1 r2 new : resolver).
+  Hypothesis Hnew : forall k, (In k (dom r1) \/ In k (dom r2) -> exists v, lookup new k = Some v /\ seq_val r1 r2 k v) /\
+                              (~ (In k (dom r1) \/ In k (dom r2)) -> lookup new k = None).
+  Hypothesis Hno : no_reintro r1 r2.
+
+  Lemma settled_both_new u : settled r1 u -> settled r2 u -> settled new u.
+  Proof.
+    intros S1 S2. destruct (Hnew u) as [A B].
+    destruct (in_dec string_dec u (dom r1)) as [I1|I1]; [|destruct (in_dec string_dec u (dom r2)) as [I2|I2]].
+    - destruct (A (or_introl I1)) as [v [Hv [v1 [R1 R2]]]].
+      rewrite (resolves_to_functional _ _ _ _ R1 (settled_resolves r1 u S1)) in R2.
+      rewrite (resolves_to_functional _ _ _ _ R2 (settled_resolves r2 u S2)) in Hv. right. exact Hv.
+    - destruct (A (or_intror I2)) as [v [Hv [v1 [R1 R2]]]].
+      rewrite (resolves_to_functional _ _ _ _ R1 (settled_resolves r1 u S1)) in R2.
+      rewrite (resolves_to_functional _ _ _ _ R2 (settled_resolves r2 u S2)) in Hv. right. exact Hv.
+    - left. apply B. tauto.
+  Qed.
+
+  Lemma new_single_step : single_step new.
+  Proof.
+    intros k v Hk. apply normal_settled. intros u Hu.
+    destruct (Hnew k) as [A B].
+    assert (Hin : In k (dom r1) \/ In k (dom r2)).
+    { destruct (in_dec string_dec k (dom r1)) as [I1|I1]; [auto|]. destruct (in_dec string_dec k (dom r2)) as [I2|I2]; [auto|].
+      rewrite (B ltac:(tauto)) in Hk. discriminate. }
+    destruct (A Hin) as [v' [Hv' [v1 [R1 R2]]]]. rewrite Hk in Hv'. injection Hv' as <-.
+    destruct (resolves_to_syms r2 v1 v R2 u Hu) as [S2 [Hu1|Hu2]].
+    - destruct (resolves_to_syms r1 (Sym k) v1 R1 u Hu1) as [S1 _]. apply settled_both_new; assumption.
+    - apply settled_both_new; [apply Hno; exact Hu2|exact S2].
+  Qed.
+
+  Lemma subst_new_is_sequential : forall e e1 e2, resolves_to r1 e e1 -> resolves_to r2 e1 e2 -> subst new e = e2.
+  Proof.
+    induction e as [q|s|h l IH] using expr_ind'; intros e1 e2 R1 R2.
+    - apply resolves_num in R1. subst e1. apply resolves_num in R2. subst e2. reflexivity.
+    - simpl. destruct (Hnew s) as [A B].
+      destruct (in_dec string_dec s (dom r1)) as [I1|I1]; [|destruct (in_dec string_dec s (dom r2)) as [I2|I2]].
+      + destruct (A (or_introl I1)) as [v [Hv [v1 [Q1 Q2]]]]. rewrite Hv.
+        rewrite (resolves_to_functional _ _ _ _ Q1 R1) in Q2. exact (resolves_to_functional _ _ _ _ Q2 R2).
+      + destruct (A (or_intror I2)) as [v [Hv [v1 [Q1 Q2]]]]. rewrite Hv.
+        rewrite (resolves_to_functional _ _ _ _ Q1 R1) in Q2. exact (resolves_to_functional _ _ _ _ Q2 R2).
+      + rewrite (B ltac:(tauto)).
+        assert (E1 : e1 = Sym s).
+        { apply (resolves_to_functional r1 (Sym s)); [exact R1|]. apply settled_resolves. left. apply lookup_None_dom. exact I1. }
+        subst e1. apply (resolves_to_functional r2 (Sym s)); [|exact R2]. apply settled_resolves. left. apply lookup_None_dom. exact I2.
+    - apply resolves_app_inv in R1. destruct R1 as [l1 [-> F1]].
+      apply resolves_app_inv in R2. destruct R2 as [l2 [-> F2]].
+      simpl. f_equal. clear h. revert l1 l2 F1 F2. induction l as [|x l IHl]; intros l1 l2 F1 F2.
+      + inversion F1; subst. inversion F2; subst. reflexivity.
+      + inversion F1 as [|? y1 ? l1' Hx1 Hr1]; subst. inversion F2 as [|? y2 ? l2' Hx2 Hr2]; subst.
+        inversion IH as [|? ? Hx Hrest]; subst. simpl. f_equal; [eapply Hx; eauto|eapply IHl; eauto].
+  Qed.
+End Compose.
+
+Lemma flatten_resolver_lookup fuel new r12 : single_step new -> flatten_resolver fuel new = Ok r12 ->
+  forall k, lookup r12 k = lookup new k.
+Proof.
+  intros Hs H k. unfold flatten_resolver in H.
+  pose proof (lookup_keyed (fun k v => value_of fuel new [] (Sym k) = Ok v) _ _ (seqM_keyed _ _ _ H) k) as [A B].
+  destruct (in_dec string_dec k (dom new)) as [I|I].
+  - destruct (A I) as [v [Hv Hq]]. rewrite Hv.
+    pose proof (value_of_sound _ _ _ _ _ Hq) as R.
+    pose proof (resolves_to_functional _ _ _ _ R (single_step_resolves new Hs (Sym k))) as E.
+    simpl in E. destruct (lookup new k) as [w|] eqn:El; [rewrite E; reflexivity|].
+    apply lookup_None_dom in El. contradiction.
+  - rewrite (B I). symmetry. apply lookup_None_dom. exact I.
+Qed.
+
+Lemma single_step_ext r r' : (forall s, lookup r s = lookup r' s) -> single_step r -> single_step r'.
+Proof. intros H Hs s v Hv. rewrite <- H in Hv. rewrite <- (subst_ext r r' H). apply (Hs s v Hv). Qed.
+
+(* D2: resolving with the composed dictionary = resolving with r1 and then with r2 *)
+Theorem resolver_compose : forall fuel r1 r2 r12, compose fuel r1 r2 = Ok r12 -> no_reintro r1 r2 ->
+  forall e e1 e2, resolves_to r1 e e1 -> resolves_to r2 e1 e2 -> resolves_to r12 e e2.
+Proof.
+  intros fuel r1 r2 r12 H Hno e e1 e2 R1 R2. unfold compose, bind in H.
+  destruct (compose_step fuel r1 r2) as [new| |] eqn:Es; try discriminate.
+  pose proof (compose_step_spec _ _ _ _ Es) as Hnew.
+  pose proof (new_single_step r1 r2 new Hnew Hno) as Hss.
+  assert (Hl : forall k, lookup r12 k = lookup new k).
+  { destruct r1 as [|p r1']; [injection H as <-; reflexivity|]. apply (flatten_resolver_lookup fuel); assumption. }
+  assert (Hss12 : single_step r12) by (apply (single_step_ext new); [intros s; symmetry; apply Hl|exact Hss]).
+  rewrite <- (subst_new_is_sequential r1 r2 new Hnew e e1 e2 R1 R2).
+  rewrite <- (subst_ext r12 new Hl). apply single_step_resolves. exact Hss12.
+Qed.
+
+Example resolver_compose_example :
+  compose 10 [("a", Sym "b")]%string [("b", App HAdd [Sym "c"; Sym "d"])]%string
+  = Ok [("b", App HAdd [Sym "c"; Sym "d"]); ("a", App HAdd [Sym "c"; Sym "d"])]%string
+  /\ no_reintro [("a", Sym "b")]%string [("b", App HAdd [Sym "c"; Sym "d"])]%string.
+Proof.
+  split; [reflexivity|]. intros u Hu. simpl in Hu. left.
+  destruct Hu as [<-|[<-|[]]]; reflexivity.
+Qed.
+
+(* without the hypothesis the law is false of the model (and of the code: replayed by the check) *)
+Theorem resolver_compose_refuted : exists fuel r1 r2 r12 e e1 e2,
+  compose fuel r1 r2 = Ok r12 /\ resolves_to r1 e e1 /\ resolves_to r2 e1 e2 /\ ~ resolves_to r12 e e2.
+Proof.
+  exists 10, [("a", Num 1)]%string, [("b", Sym "a")]%string, [("b", Num 1); ("a", Num 1)]%string,
+         (Sym "b"%string), (Sym "b"%string), (Sym "a"%string).
+  split; [reflexivity|]. split; [exists 1; reflexivity|]. split; [exists 2; reflexivity|].
+  intros C. assert (D : resolves_to [("b", Num 1); ("a", Num 1)]%string (Sym "b"%string) (Num 1)) by (exists 2; reflexivity).
+  pose proof (resolves_to_functional _ _ _ _ C D). discriminate.
+Qed.
+
+(* ---- D4: flattening preserves the value of every parameter ---------------------------------------------------- *)
+Lemma next_symbol_fresh suffix base tk : forall fuel k s, next_symbol fuel suffix base tk k = Some s -> ~ In s tk.
+Proof.
+  induction fuel as [|f IH]; intros k s H; [discriminate|]. simpl in H.
+  destruct (mem (match k with 0 => base | S _ => suffix base k end) tk) eqn:E.
+  - eapply IH; eauto.
+  - injection H as <-. intros C. apply mem_In in C. congruence.
+Qed.
+
+Lemma NoDup_app_one {A} (l : list A) x : NoDup l -> ~ In x l -> NoDup (l ++ [x]).
+Proof.
+  induction l as [|y l IH]; intros Hnd Hx; simpl; [constructor; [intros []|constructor]|].
+  inversion Hnd as [|? ? Hy Hnd']; subst. constructor.
+  - intros C. apply in_app_or in C. destruct C as [C|[C|[]]]; [contradiction|subst; apply Hx; left; reflexivity].
+  - apply IH; [exact Hnd'|intros C; apply Hx; right; exact C].
+Qed.
+
+Lemma flookup_In m e s : flookup m e = Some s -> In (e, s) m.
+Proof.
+  induction m as [|[k v] m IH]; simpl; [discriminate|].
+  destruct (expr_eqb k e) eqn:E; [apply expr_eqb_eq in E; subst k; intros H; injection H as ->; left; reflexivity|intros H; right; auto].
+Qed.
+
+Lemma transform_env_at {V} (I : interp V) env m formula s :
+  NoDup (taken m) -> In (formula, s) m -> transform_env I env m s = eval I env formula.
+Proof.
+  unfold transform_env, taken. induction m as [|[f0 s0] m IH]; intros Hnd Hin; [destruct Hin|].
+  simpl in Hnd. inversion Hnd as [|? ? Hnot Hnd']; subst. simpl.
+  destruct Hin as [E|Hin].
+  - injection E as -> ->. rewrite String.eqb_refl. reflexivity.
+  - destruct (String.eqb_spec s0 s) as [->|Hne].
+    + exfalso. apply Hnot. apply in_map_iff. exists (formula, s). split; [reflexivity|exact Hin].
+    + apply IH; assumption.
+Qed.
+
+Section FlattenProofs.
+  Variable name : expr -> string.
+  Variable suffix : string -> nat -> string.
+
+  (* one parameter: the map only grows at the end, stays injective on symbols, and names the parameter *)
+  Lemma flatten_one_spec fuel m e e' m' : NoDup (taken m) -> flatten_one name suffix fuel m e = Some (e', m') ->
+    NoDup (taken m') /\ (exists ext, m' = m ++ ext) /\
+    ((exists q, e = Num q /\ e' = Num q) \/ (exists s, e' = Sym s /\ In (e, s) m')).
+  Proof.
+    intros Hnd H. unfold flatten_one in H.
+    assert (G : match flookup m e with
+                | Some s => Some (Sym s, m)
+                | None => match next_symbol fuel suffix (name e) (taken m) 0 with
+                          | Some s => Some (Sym s, m ++ [(e, s)])
+                          | None => None
+                          end
+                end = Some (e', m') ->
+                NoDup (taken m') /\ (exists ext, m' = m ++ ext) /\ (exists s, e' = Sym s /\ In (e, s) m')).
+    { destruct (flookup m e) as [s|] eqn:El.
+      - intros H'; injection H' as <- <-. split; [exact Hnd|]. split; [exists []; rewrite app_nil_r; reflexivity|].
+        exists s. split; [reflexivity|apply flookup_In; exact El].
+      - destruct (next_symbol fuel suffix (name e) (taken m) 0) as [s|] eqn:En; [|discriminate].
+        intros H'; injection H' as <- <-. split; [|split].
+        + unfold taken in *. rewrite map_app. simpl. apply NoDup_app_one; [exact Hnd|].
+          eapply next_symbol_fresh; eauto.
+        + exists [(e, s)]. reflexivity.
+        + exists s. split; [reflexivity|]. apply in_or_app. right. left. reflexivity. }
+    destruct e as [q|s|h l].
+    - injection H as <- <-. split; [exact Hnd|]. split; [exists []; rewrite app_nil_r; reflexivity|].
+      left. exists q. split; reflexivity.
+    - destruct (G H) as [A [B C]]. auto.
+    - destruct (G H) as [A [B C]]. auto.
+  Qed.
+
+  Theorem flatten_preserves_eval_gen : forall fuel es m es' m',
+    NoDup (taken m) -> flatten_all name suffix fuel m es = Some (es', m') ->
+    NoDup (taken m') /\ (exists ext, m' = m ++ ext) /\
+    forall V (I : interp V) env, Forall2 (fun e e' => eval I (transform_env I env m') e' = eval I env e) es es'.
+  Proof.
+    intros fuel. induction es as [|e rest IH]; intros m es' m' Hnd H; simpl in H.
+    - injection H as <- <-. split; [exact Hnd|]. split; [exists []; rewrite app_nil_r; reflexivity|]. intros; constructor.
+    - destruct (flatten_one name suffix fuel m e) as [[e1 m1]|] eqn:E1; [|discriminate].
+      destruct (flatten_all name suffix fuel m1 rest) as [[es2 m2]|] eqn:E2; [|discriminate].
+      injection H as <- <-.
+      destruct (flatten_one_spec _ _ _ _ _ Hnd E1) as [Hnd1 [[ext1 Hext1] Hone]].
+      destruct (IH _ _ _ Hnd1 E2) as [Hnd2 [[ext2 Hext2] Hrest]].
+      split; [exact Hnd2|]. split; [exists (ext1 ++ ext2); rewrite Hext2, Hext1, app_assoc; reflexivity|].
+      intros V I env. constructor; [|apply Hrest].
+      destruct Hone as [[q [-> ->]]|[s [-> Hin]]]; [reflexivity|].
+      simpl. apply transform_env_at; [exact Hnd2|]. rewrite Hext2. apply in_or_app. left. exact Hin.
+  Qed.
+
+  Theorem flatten_preserves_eval : forall fuel es es' m,
+    flatten_all name suffix fuel [] es = Some (es', m) ->
+    forall V (I : interp V) env, Forall2 (fun e e' => eval I (transform_env I env m) e' = eval I env e) es es'.
+  Proof. intros fuel es es' m H. apply (flatten_preserves_eval_gen fuel es [] es' m (NoDup_nil _) H). Qed.
+
+  (* and the flattened parameters are flat: numbers or symbols *)
+  Theorem flatten_is_flat : forall fuel es m es' m', flatten_all name suffix fuel m es = Some (es', m') ->
+    Forall (fun e' => (exists q, e' = Num q) \/ (exists s, e' = Sym s)) es'.
+  Proof.
+    intros fuel. induction es as [|e rest IH]; intros m es' m' H; simpl in H.
+    - injection H as <- _. constructor.
+    - destruct (flatten_one name suffix fuel m e) as [[e1 m1]|] eqn:E1; [|discriminate].
+      destruct (flatten_all name suffix fuel m1 rest) as [[es2 m2]|] eqn:E2; [|discriminate].
+      injection H as <- _. constructor; [|eapply IH; eauto].
+      unfold flatten_one in E1. destruct e as [q|s|h l].
+      + injection E1 as <- _. left. eauto.
+      + destruct (flookup m (Sym s)); [injection E1 as <- _; right; eauto|].
+        destruct (next_symbol fuel suffix (name (Sym s)) (taken m) 0); [injection E1 as <- _; right; eauto|discriminate].
+      + destruct (flookup m (App h l)); [injection E1 as <- _; right; eauto|].
+        destruct (next_symbol fuel suffix (name (App h l)) (taken m) 0); [injection E1 as <- _; right; eauto|discriminate].
+  Qed.
+End FlattenProofs.
+
+(* a collision of printed names is resolved, not confused: even a constant naming function works *)
+Example flatten_collision_example :
+  flatten_all (fun _ => "x"%string) (fun b k => (b ++ "_")%string) 10 [] [App HAdd [Sym "a"; Num 1]; Sym "x"; App HAdd [Sym "a"; Num 1]]%string
+  = Some ([Sym "x"; Sym "x_"; Sym "x"]%string, [(App HAdd [Sym "a"; Num 1], "x"); (Sym "x", "x_")]%string).
+Proof. reflexivity. Qed.
